@@ -5,6 +5,7 @@ import (
 	"fmt"
 	"os"
 	"sort"
+	"strings"
 
 	"golang.org/x/tools/go/packages"
 )
@@ -59,6 +60,54 @@ func main() {
 			fmt.Printf("--- literal %d at %s\n", i, p.posStr(lit.Pos()))
 			fmt.Print(p.LitCtx(fc, lit).G.String(p.Fset))
 		}
+	case "bounds":
+		fs := flag.NewFlagSet("bounds", flag.ExitOnError)
+		fs.StringVar(&repoDir, "repo", repoDir, "repository directory")
+		all := fs.Bool("all", false, "print proved obligations too")
+		only := fs.String("func", "", "only functions whose name contains this")
+		fs.Parse(os.Args[2:])
+		var pats []string
+		for _, a := range fs.Args() {
+			pats = append(pats, "./"+a)
+		}
+		p := Load(loadSyntax, nil, nil, pats...)
+		eng := newBoundsEngine(p)
+		eng.contract = c06Contract
+		var fcs []*FuncCtx
+		for _, a := range fs.Args() {
+			pkg := p.Pkg(a)
+			p.AllFuncs(pkg, func(fc *FuncCtx) {
+				fcs = append(fcs, allCtxs(p, fc)...)
+			})
+		}
+		obs := eng.analyse(fcs)
+		cnt := map[string]int{}
+		for _, o := range obs {
+			cnt[o.Status]++
+			if (o.Status != "proved" || *all) && strings.Contains(o.FC.Name, *only) {
+				fmt.Printf("%-9s %s  %s  [%s] %s\n", o.Status, p.posStr(o.Pos), o.Construct, o.Goal.String(), o.Detail)
+			}
+		}
+		for _, fc := range fcs {
+			if fc.Obj == nil || !strings.Contains(fc.Name, *only) {
+				continue
+			}
+			s := eng.sum[fc.Obj]
+			if s == nil || (len(s.requires) == 0 && len(s.ensures) == 0 && len(s.ensuresSucc) == 0) {
+				continue
+			}
+			fmt.Printf("SUMMARY %s\n", fc.Name)
+			for _, r := range s.requires {
+				fmt.Printf("   requires %s >= 0   (%s)\n", r.lf.String(), r.origin)
+			}
+			for _, r := range s.ensures {
+				fmt.Printf("   ensures  %s >= 0\n", r.String())
+			}
+			for _, r := range s.ensuresSucc {
+				fmt.Printf("   ensures-on-success  %s >= 0\n", r.String())
+			}
+		}
+		fmt.Println(cnt)
 	case "list":
 		var ids []string
 		for id := range props {
